@@ -8,6 +8,7 @@ from vlib import translate
 
 def run(ctx):
     translate.check_link(ctx, "C12")
+    translate.check_link(ctx, "C10")   # the evaluation operator (selection) and the other EVQE operators: which value is recorded at which index
     from vlib import solvercases as sc
 
     sc.run_property(ctx, "C05", strict_multi=False, n_scripted=ctx.n(600, 6000), n_evqe=ctx.n(18, 60), enum_events=None if ctx.quick else 5)
